@@ -125,6 +125,12 @@ pub fn enabled<P: Proto>(w: &ClientWorld<P>, cfg: &Cfg) -> Vec<(CAct, u8)> {
                         if w.mon.errors().len() < 2 {
                             v.push((CAct::Fail, 1));
                         }
+                        // user requests in between: their writes are announced as well
+                        if sent < 2 {
+                            v.push((CAct::U(UReq::Subscribe), 0));
+                            v.push((CAct::U(UReq::Unsubscribe), 0));
+                            v.push((CAct::U(UReq::Publish { qos: 1 }), 0));
+                        }
                     }
                     1 => {
                         // unsolicited / repeated acknowledgements, ids above the limit
@@ -377,8 +383,8 @@ fn plans(prop: &str, tier: Tier) -> Vec<Plan> {
                     c.variant = variant;
                     c.manual_acks = variant == 3;
                     let d = match (variant, q) {
-                        (0, true) => vec![4, 4],
-                        (0, false) => vec![6, 6],
+                        (0, true) => vec![3, 3],
+                        (0, false) => vec![4, 4],
                         (1, true) => vec![4, 4],
                         (1, false) => vec![6, 6, 5],
                         (2, true) => vec![3, 3],
